@@ -20,7 +20,7 @@ PROP = {'areas': [{'area': 'c03',
          'small maximum, exact-fit maximum. Both chunkings go to Decoder::decode_bytes through the facade and to the extracted model; packets (text), verdict '
          'kind and failing chunk are compared (tie), monitors on the implementation: decoded packets = generated packets (valid), no panic, same packets / '
          'verdict / failing byte for both chunkings, oversize rejected no later than the length-completing byte. 13 x 256 reason-code tables of the compiled '
-         'code are compared with the model (tie) and with the specification tables (property) on every run. distinct = distinct byte streams; non-trivial = at least 2 bytes'}
+         'code are compared with the model (tie: equal) and with the specification tables (property: every specification code accepted; extra accepted codes noted) on every run. distinct = distinct byte streams; non-trivial = at least 2 bytes'}
 
 META = {'design_ref': 'DESIGN.md section 7 / C03',
  'level_note': 'Trusted: Coq kernel; the tie (facade, harness, OCaml driver); std::str::from_utf8 modelled by utf8_ok. The specification side (encoder, reason-code '
@@ -31,8 +31,7 @@ META = {'design_ref': 'DESIGN.md section 7 / C03',
                'effective maximum is rejected by the call that consumes the byte completing the length field with no body byte buffered (C03_size_gate); the '
                "implementation's reason-code tables equal the specification's on all 256 values (C03_reason_codes_*), except UNSUBACK where 143 is rejected and "
                '144 accepted (C03_reason_codes_unsuback_refuted); every server-to-client packet kind of MQTT 5 and 3.1.1 produced by the independent specification encoder, in any legal property order and '
-               'any compact form, decodes to exactly its content, also through the framing decoder (C03_faithful_packet, C03_faithful_stream), except '
-               'UNSUBACK with reason code 143 (C03_faithful_unsuback_v5_refuted). The model is run against Decoder::decode_bytes on generated valid and malformed streams under '
+               'any compact form, decodes to exactly its content, also through the framing decoder (C03_faithful_packet, C03_faithful_stream). The model is run against Decoder::decode_bytes on generated valid and malformed streams under '
                'random chunkings on every check.',
  'technique': 'machine-checked proof in Coq (induction over byte streams / property lists; exhaustive 256-value tables by vm_compute) + differential '
               'correspondence of the extracted model with the implementation, specification-side generation'}
